@@ -44,6 +44,34 @@ type c18DiskResult struct {
 	ScratchErr         string
 }
 
+// scratch directories of this process (removed individually after use; the
+// memory watchdog removes whatever is left before it exits the process)
+var c18ScratchMu sync.Mutex
+var c18ScratchDirs = map[string]bool{}
+
+func c18Scratch(prefix string) string {
+	d := vkScratch(prefix)
+	c18ScratchMu.Lock()
+	c18ScratchDirs[d] = true
+	c18ScratchMu.Unlock()
+	return d
+}
+
+func c18Unscratch(dir string) {
+	_ = os.RemoveAll(dir)
+	c18ScratchMu.Lock()
+	delete(c18ScratchDirs, dir)
+	c18ScratchMu.Unlock()
+}
+
+func c18RemoveAllScratch() {
+	c18ScratchMu.Lock()
+	for d := range c18ScratchDirs {
+		_ = os.RemoveAll(d)
+	}
+	c18ScratchMu.Unlock()
+}
+
 func c18Options() Options {
 	opt := DefaultOptions()
 	opt.Logger = nil
@@ -65,8 +93,8 @@ type c18ValueOutcome struct {
 }
 
 func c18TryIdentity(cid, nid uint64) (out c18ValueOutcome) {
-	dir := vkScratch("c18id")
-	defer os.RemoveAll(dir)
+	dir := c18Scratch("c18id")
+	defer c18Unscratch(dir)
 	defer func() {
 		if p := recover(); p != nil {
 			out.fail = fmt.Sprintf("panic: %v", p)
@@ -103,8 +131,8 @@ func c18TryIdentity(cid, nid uint64) (out c18ValueOutcome) {
 }
 
 func c18TryTermVote(term, vote uint64) (out c18ValueOutcome) {
-	dir := vkScratch("c18tv")
-	defer os.RemoveAll(dir)
+	dir := c18Scratch("c18tv")
+	defer c18Unscratch(dir)
 	var open *storage
 	defer func() {
 		c18CloseStorage(open)
@@ -506,8 +534,8 @@ func c18RunStream(sp c18StreamSpec) (out c18StreamOutcome) {
 			}
 		}
 	} else {
-		dir := vkScratch("c18pipe")
-		defer os.RemoveAll(dir)
+		dir := c18Scratch("c18pipe")
+		defer c18Unscratch(dir)
 		if err := SetIdentity(dir, 7, 1); err != nil {
 			out.fail = "SetIdentity: " + err.Error()
 			return
